@@ -27,6 +27,8 @@ def gen(rng, tier):
         if "nversyms" in info:
             qs.insert(rng.randrange(0, len(qs) + 1), "symver 0 1 2 3")
             qs.insert(rng.randrange(0, len(qs) + 1), "symtab")
+        qs.insert(rng.randrange(0, len(qs) + 1), "byname %s" % hx(b".shstrtab"))     # a name that exists: a fault must not turn it into "no such section"
+        qs.insert(rng.randrange(0, len(qs) + 1), "byname %s" % hx(b".text"))
         qs = qs + qs          # ask everything again: a failure must leave no residue
         base = streamgen.stream_case(fam, data, "plain", [], qs)
         cases.append(base)
